@@ -8,6 +8,7 @@
   3. every recorded trace is validated by TLC with CrawlMon.tla (property clauses on observed events)
 """
 import json
+import urllib.parse
 import os
 import shutil
 import sys
@@ -66,6 +67,8 @@ def _new_run(scn, db, d, **kw):
         r = X.HRun(dict(hosts={'a.test': X.A_IP}, urls=[], robots={}), X.ftp_argv(db, d, ['ftp://f.test/']), None, ftp=ftp,
                    concurrency=scn['N'], db_path=db, cwd=d, **kw)
         r._uidmap = {'ftp://f.test' + u['path']: u['id'] for u in scn['urls']}
+        # (the table holds the URL, in which a name is percent-encoded; the server sees the name)
+        r._uidmap.update({'ftp://f.test' + urllib.parse.quote(u['path'], safe='/'): u['id'] for u in scn['urls']})
         r.count_ftp = True          # LIST / RETR are logged as the requests of the URLs they fetch
         return r
     return CrawlRun(cs.site_desc(scn), cs.argv(scn, db, d), concurrency=scn['N'], db_path=db, cwd=d, **kw)
